@@ -254,6 +254,14 @@ int __wrap_close(int fd) {
 		led_del_fd(fd);
 		return rc;
 	}
+	{
+		int known = 0;
+		pthread_mutex_lock(&g_led_mu);
+		for (int i = 0; i < g_nfd; i++) if (g_led_fd[i] == fd) known = 1;
+		int tracking = g_track;
+		pthread_mutex_unlock(&g_led_mu);
+		if (!known && tracking && fd >= 0) LOGEV("\"e\":\"sys.close.foreign\",\"fd\":%d", fd); /* the library closes a descriptor it never acquired */
+	}
 	led_del_fd(fd);
 	return __real_close(fd);
 }
@@ -386,9 +394,8 @@ ssize_t __wrap_read(int fd, void *buf, size_t n) {
 
 /* ------------------------------------------------------------------ scenario machinery */
 #define MAXGATE 16
-static sem_t g_gate[MAXGATE];
 static void run_prog(const char *actor, char *prog);
-
+static sem_t g_gate[16];
 /* thread identity by address (the struct may already be wiped on the failed-create path); while the pool
  * is still under construction only the virtual thread can be meant */
 static long hook_tid(tpt_p tpt) {
@@ -396,7 +403,16 @@ static long hook_tid(tpt_p tpt) {
 	return (long)(tpt - &g_tp->threads[0]);
 }
 static void hook_on_start(tpt_p tpt) { LOGEV("\"e\":\"hook.start\",\"a\":%ld", hook_tid(tpt)); perturb(); }
-static void hook_on_stop(tpt_p tpt) { LOGEV("\"e\":\"hook.stop\",\"a\":%ld", hook_tid(tpt)); perturb(); }
+static int g_stop_gate = -1; static volatile int g_stop_held = 0;
+static void hook_on_stop(tpt_p tpt) {
+	LOGEV("\"e\":\"hook.stop\",\"a\":%ld", hook_tid(tpt));
+	if (g_stop_gate >= 0 && tpt != g_tp->pvt) { /* scenario keeps the worker inside its stop hook (state STOPING) */
+		struct timespec ts; clock_gettime(CLOCK_REALTIME, &ts); ts.tv_sec += 5;
+		__sync_fetch_and_add(&g_stop_held, 1);
+		sem_timedwait(&g_gate[g_stop_gate], &ts);
+	}
+	perturb();
+}
 
 static void user_cb(tpt_p tpt, void *udata) {
 	hmsg_t *m = udata;
@@ -532,12 +548,30 @@ static int ev_ops(const char *op, const char *args) {
 	if (!strcmp(op, "mkready")) { sscanf(args, "%d", &u); LOGEV("\"e\":\"mkready\",\"u\":%d", u); (void)!__real_write(g_evo[u].wfd, "x", 1); return 1; }
 	if (!strcmp(op, "drain")) { sscanf(args, "%d", &u); char bb[256]; while (__real_read(g_evo[u].rfd, bb, sizeof(bb)) > 0) ; LOGEV("\"e\":\"drained\",\"u\":%d", u); return 1; }
 	if (!strcmp(op, "peerclose")) { sscanf(args, "%d", &u); LOGEV("\"e\":\"peerclose\",\"u\":%d", u); __real_close(g_evo[u].wfd); g_evo[u].wfd = -1; return 1; }
+	if (!strcmp(op, "evreopen")) { /* close the pipe WITHOUT deleting the registration, open a new one: the descriptor numbers are reused, tp_udata keeps its state */
+		sscanf(args, "%d", &u); evo_t *o = &g_evo[u];
+		__real_close(o->rfd); __real_close(o->wfd);
+		int fds[2]; if (pipe(fds) != 0) abort();
+		fcntl(fds[0], F_SETFL, O_NONBLOCK); fcntl(fds[1], F_SETFL, O_NONBLOCK);
+		o->rfd = fds[0]; o->wfd = fds[1]; o->ud.ident = (uintptr_t)((o->kind == 0) ? fds[0] : fds[1]);
+		LOGEV("\"e\":\"evreopen\",\"u\":%d", u);
+		return 1;
+	}
+	if (!strcmp(op, "fillpipe")) { /* make the write end unwritable */
+		sscanf(args, "%d", &u); char z[4096]; memset(z, 0, sizeof(z));
+		while (__real_write(g_evo[u].wfd, z, sizeof(z)) > 0) ;
+		while (__real_write(g_evo[u].wfd, z, 1) > 0) ;
+		LOGEV("\"e\":\"mkready\",\"u\":%d", u); /* environment change, same class as mkready/drained for the specification */
+		return 1;
+	}
+	if (!strcmp(op, "readerclose")) { sscanf(args, "%d", &u); LOGEV("\"e\":\"readerclose\",\"u\":%d", u); __real_close(g_evo[u].rfd); g_evo[u].rfd = -1; return 1; }
 	if (!strcmp(op, "evfree")) { sscanf(args, "%d", &u); if (g_evo[u].rfd >= 0) __real_close(g_evo[u].rfd); if (g_evo[u].wfd >= 0) __real_close(g_evo[u].wfd); g_evo[u].rfd = g_evo[u].wfd = -1; return 1; }
 	if (!strcmp(op, "evwait")) { /* evwait u k ms: wait (bounded) until k callbacks were seen - liveness is not a race */
 		sscanf(args, "%d %d %d", &u, &a, &b);
 		for (int i = 0; i < b * 10 && g_evo[u].count < a; i++) usleep(100);
 		return 1;
 	}
+	if (!strcmp(op, "evmin")) { sscanf(args, "%d %d", &u, &a); LOGEV("\"e\":\"evmin\",\"u\":%d,\"k\":%d", u, a); return 1; } /* scenario: from now on at least k callbacks are owed */
 	if (!strcmp(op, "evcount")) { sscanf(args, "%d", &u); LOGEV("\"e\":\"evcount\",\"u\":%d,\"cnt\":%d", u, g_evo[u].count); return 1; }
 	if (!strcmp(op, "logepctl")) { sscanf(args, "%d", &g_log_epctl); return 1; }
 	(void)c;
@@ -606,6 +640,13 @@ static void exec_line(const char *actor, char *line) {
 		sscanf(args, "%d", &a);
 		struct timespec ts; clock_gettime(CLOCK_REALTIME, &ts); ts.tv_sec += 10;
 		if (sem_timedwait(&g_gate[a], &ts) != 0) LOGEV("\"e\":\"Hang\",\"where\":\"gatewait\",\"g\":%d", a);
+	} else if (!strcmp(op, "stophold")) { sscanf(args, "%d", &a); g_stop_gate = a; g_stop_held = 0;
+	} else if (!strcmp(op, "waitheld")) { /* until k workers sit in their stop hook (bounded) */
+		sscanf(args, "%d", &a);
+		for (int t = 0; t < 50000 && g_stop_held < a; t++) usleep(100);
+		LOGEV("\"e\":\"waitheld\",\"k\":%d", g_stop_held);
+	} else if (!strcmp(op, "closefd0")) { __real_close(0); LOGEV("\"e\":\"closefd0\"");
+	} else if (!strcmp(op, "openfd0")) { int fd0 = open("/dev/null", O_RDONLY); LOGEV("\"e\":\"openfd0\",\"fd\":%d", fd0);
 	} else if (!strcmp(op, "sleep")) { sscanf(args, "%d", &a); usleep((useconds_t)a);
 	} else if (!strcmp(op, "quiesce")) { do_quiesce(); LOGEV("\"e\":\"quiesce\"");
 	} else if (!strcmp(op, "shutdown")) {
@@ -643,7 +684,7 @@ static void exec_line(const char *actor, char *line) {
 	} else if (!strcmp(op, "watchdog")) { sscanf(args, "%d", &a); g_watchdog_s = a; alarm((unsigned)a);
 	} else if (!strcmp(op, "reset")) {
 		pthread_mutex_lock(&g_led_mu); g_nfault = 0; pthread_mutex_unlock(&g_led_mu);
-		g_ndelay = 0; g_next_inst = 1; g_nobj = 0;
+		g_ndelay = 0; g_next_inst = 1; g_nobj = 0; g_stop_gate = -1;
 		LOGEV("\"e\":\"Reset\"");
 	} else {
 		LOGEV("\"e\":\"BadOp\",\"op\":\"%s\"", op);
